@@ -26,6 +26,7 @@ FLAGS = [("0", "0"), ("0", "1"), ("1", "0"), ("1", "1")]
 
 NARGS = {"M": 2, "L": 2, "T": 2, "H": 1, "V": 1, "C": 6, "S": 4, "Q": 4, "A": 7, "Z": 0}
 PLAIN, REPEAT, ZFINAL = 0, 1, 2
+REPEAT3, REPEAT5 = 3, 5     # implicit repetition with three / five argument groups
 Z_OK = "LlCcSsQqTtAa"
 
 
@@ -46,7 +47,7 @@ class Builder(object):
             if C == "Z":
                 pieces.append(letter)
                 continue
-            ngroups = 2 if dev == REPEAT else 1
+            ngroups = {REPEAT: 2, REPEAT3: 3, REPEAT5: 5}.get(dev, 1)
             groups = []
             for g in range(ngroups):
                 last = (g == ngroups - 1)
